@@ -103,15 +103,17 @@ def replay_case(case):
     by = {k[0]: k for k in kinds}
 
     def used(obj, arity):
-        """The same adapter object after it has been fitted on and asked about OTHER data (two more rows, other values):
+        """The same adapter object after it has been fitted on and asked about OTHER data (another shape, then the same shape with other values):
         what it returns for X afterwards must not depend on that."""
-        W = np.vstack([X[::-1] * 2.0 + 1.0, X[:2] - 3.0])
-        try:
-            m = W.shape[0]
-            cut = {2: [0, m], 3: [0, m // 2, m], 4: [0, m // 3, m - m // 3, m]}[arity]
-            obj.fit(W).evaluate(np.array([cut]))
-        except Exception:
-            pass  # whether W itself is acceptable to this scorer is not the point here
+        # first data of ANOTHER shape, then data of the SAME shape as X (a stale cache keyed on the shape survives only
+        # the second)
+        for W in (np.vstack([X[::-1] * 2.0 + 1.0, X[:2] - 3.0]), X[::-1] * 3.0 - 1.0):
+            try:
+                m = W.shape[0]
+                cut = {2: [0, m], 3: [0, m // 2, m], 4: [0, m // 3, m - m // 3, m]}[arity]
+                obj.fit(W).evaluate(np.array([cut]))
+            except Exception:
+                pass  # whether W itself is acceptable to this scorer is not the point here
         return obj
 
     def cmp(name, cut, got, want):
